@@ -453,7 +453,15 @@ impl Writer {
         }
         // Append log entry
         let datafile_entry = DataFileEntry { tstamp, key, value };
-        let index = self.writer.append(&datafile_entry)?;
+        let index = match self.writer.append(&datafile_entry) {
+            Ok(index) => index,
+            Err(e) => {
+                // The active file may now end with a partially written entry, which is fine as
+                // long as nothing comes after it, so the next write has to start a new file
+                self.min_unused_fileid = self.min_unused_fileid.max(self.active_fileid + 2);
+                return Err(e.into());
+            }
+        };
         // Sync immediately if the strategy is "always"
         if let SyncStrategy::Always = self.ctx.conf.sync {
             self.writer.sync()?;
@@ -610,10 +618,13 @@ impl Writer {
     fn new_active_datafile(&mut self, fileid: u64) -> Result<(), Error> {
         // Only switch to the new file ID once its file has been created. Otherwise, when
         // the creation fails, new entries go to the previous file under the new file ID
-        self.writer = LogWriter::new(log::create(utils::datafile_name(
+        let writer = LogWriter::new(log::create(utils::datafile_name(
             self.ctx.conf.path.as_path(),
             fileid,
         ))?)?;
+        // The previous file is left as it is. What is still buffered belongs to an entry that
+        // could not be appended and was reported as an error, it must not get to the disk later
+        std::mem::replace(&mut self.writer, writer).discard();
         self.active_fileid = fileid;
         self.min_unused_fileid = self.min_unused_fileid.max(fileid + 1);
         self.written_bytes = 0;
